@@ -317,10 +317,10 @@ func Immutable(tx *types.MutableTransaction) *types.Transaction {
 
 // ---------------------------------------------------------------- fingerprints
 
-// DumpState returns every key/value of the committed state DB visible through a fresh
-// overlay (all 256 one-byte prefixes), as a sorted list of hex "k=v" strings' hash plus count.
+// DumpState returns every key/value of the committed state DB (raw keys incl. the one-byte
+// data-entry prefix; all 256 prefixes are enumerated through a fresh overlay): hash, count, map.
 func (c *Chain) DumpState() (hash string, n int, dump map[string]string) {
-	cache := c.Store().GetCacheDB()
+	cache := c.Store().VerifStateOverlay() // raw keys: contract storage, contracts, destroyed marks, ETH code/accounts, merkle trees, current block …
 	dump = map[string]string{}
 	hs := sha256.New()
 	for p := 0; p < 256; p++ {
